@@ -64,7 +64,7 @@ PTYPES = {
 }
 UNIVERSE = {"ads": list(UADS) + ["nitrogen", "carbon dioxide", "methane"], "mats": list(UMATS)}
 
-OPEN_VALUES = [None, ["x", "y"], float("nan")]
+OPEN_VALUES = [None, ["x", "y"], float("nan"), True, False]     # booleans: a REAL column gives back 1.0 / 0.0
 
 
 def tier_runs(tier):
@@ -217,11 +217,14 @@ def _ads_spec(rng, name=None, open_values=False):
     return dict(name=name, **props)
 
 
+LOOSE = True   # adsorbate / material properties: numbers compare by value across bool / int / float
+
+
 def _mat_spec(rng, name=None, open_values=False):
     name = name or rng.choice(list(UMATS))
     props = copy.deepcopy(rng.choice(UMATS[name]))
     if open_values and rng.random() < 0.5:
-        props["verif_m1"] = rng.choice(OPEN_VALUES[:2])
+        props["verif_m1"] = rng.choice(OPEN_VALUES[:2] + OPEN_VALUES[3:])
     return dict(name=name, **props)
 
 
@@ -386,6 +389,8 @@ def gen_op(rng, cfg, models, favourites):
         op["autoinsert_material"] = rng.random() < 0.75
         op["autoinsert_adsorbate"] = rng.random() < 0.75
         op["via"] = rng.choice(["function", "function", "method"])
+        if rng.random() < 0.1:
+            op["reuse_edit"] = {"verif_edit": rng.choice([0.75, 1.25, "edited"])}   # see storeops: same object, edited in place
     elif o == "isotherm_delete_db":
         r = rng.random()
         if r < 0.4:
@@ -403,7 +408,10 @@ def gen_op(rng, cfg, models, favourites):
     elif o == "isotherms_from_db":
         crit = {}
         if rng.random() < 0.5:
-            for k in rng.sample(["material", "adsorbate", "temperature", "iso_type"], rng.randint(1, 2)):
+            if rng.random() < 0.15:
+                # the identifier column is a criterion like any other
+                crit["id"] = rng.choice(sorted(fm.isos)) if fm.isos and rng.random() < 0.8 else "0" * 32
+            for k in rng.sample(["material", "adsorbate", "temperature", "iso_type"], rng.randint(0 if crit else 1, 2)):
                 if k == "material":
                     crit[k] = rng.choice(list(UMATS))
                 elif k == "adsorbate":
@@ -694,7 +702,7 @@ class Run:
                 e = want[k]
                 # the material is a keyed item of the same file: its properties are the file's entry
                 file_mat = fm.mats.get(e["mname"])
-                if file_mat is not None and dg.diff(c["mat"], file_mat, rtol=0.0) is not None:
+                if file_mat is not None and dg.diff(c["mat"], file_mat, rtol=0.0, loose_numbers=LOOSE) is not None:
                     self.fail("retrieved-differs", "table=isotherms field=material-properties",
                               {"op": opdesc, "where": where, "restarted": self._restarted(op), "got": c["mat"], "file": file_mat})
                     return
@@ -762,10 +770,11 @@ class Run:
                       f"extra={len(extra) > 0}", {"missing": miss[:5], "extra": extra[:5]})
             return
         for k in sorted(want):
-            d = dg.diff(got[k], want[k], rtol=0.0)     # a store returns exactly what it was given
+            d = dg.diff(got[k], want[k], rtol=0.0, loose_numbers=LOOSE)     # a store returns exactly what it was given
             if d is not None:
                 gd, wd = rs._cd(got[k]), rs._cd(want[k])
-                fields = sorted(x for x in set(gd) | set(wd) if x not in gd or x not in wd or dg.diff(gd[x], wd[x]) is not None)
+                fields = sorted(x for x in set(gd) | set(wd)
+                                if x not in gd or x not in wd or dg.diff(gd[x], wd[x], rtol=0.0, loose_numbers=LOOSE) is not None)
                 self.fail("retrieved-differs", f"op={opdesc} where={where} table={what} fields={','.join(fields)[:80]}",
                           {"key": k, "got": {f: gd.get(f) for f in fields[:4]}, "want": {f: wd.get(f) for f in fields[:4]}})
                 return
